@@ -1203,4 +1203,75 @@ theorem orderView_evalOrder (e : Eng) : (orderView e).map (·.2) = (evalOrder e.
       cases d.rs.enabled <;> simp [ih]
   · cases h : b.rs.enabled <;> simp [h]
 
+/-! ### a drop-in ruleset in the engine is the very object the compiler produced -/
+
+theorem addToFirst_mem (T : Tag) (r : Rs) (bs bs' : List BaseRs) (h : addToFirst T r bs = some bs') :
+    ∀ b' ∈ bs', ∀ x ∈ b'.dropins, x = { tag := T, rs := r } ∨ ∃ b ∈ bs, x ∈ b.dropins := by
+  induction bs generalizing bs' with
+  | nil => simp [addToFirst] at h
+  | cons b bs ih =>
+    simp only [addToFirst] at h
+    split at h
+    · simp only [Option.some.injEq] at h
+      subst h
+      intro b' hb' x hx
+      rcases List.mem_cons.1 hb' with rfl | hb'
+      · rcases List.mem_cons.1 hx with rfl | hx
+        · exact Or.inl rfl
+        · exact Or.inr ⟨b, List.mem_cons_self, hx⟩
+      · exact Or.inr ⟨b', List.mem_cons_of_mem _ hb', hx⟩
+    · cases h2 : addToFirst T r bs with
+      | none => simp [h2] at h
+      | some bs2 =>
+        simp only [h2, Option.map_some, Option.some.injEq] at h
+        subst h
+        intro b' hb' x hx
+        rcases List.mem_cons.1 hb' with rfl | hb'
+        · exact Or.inr ⟨b', List.mem_cons_self, hx⟩
+        · rcases ih bs2 h2 b' hb' x hx with h | ⟨b0, hb0, hx0⟩
+          · exact Or.inl h
+          · exact Or.inr ⟨b0, List.mem_cons_of_mem _ hb0, hx0⟩
+
+theorem addRulesets_mem (T : Tag) (rs : List Rs) (e : Eng) :
+    ∀ b' ∈ (addRulesets T rs e).2.rulesets, ∀ x ∈ b'.dropins,
+      (x.tag = T ∧ x.rs ∈ rs) ∨ ∃ b ∈ e.rulesets, x ∈ b.dropins := by
+  induction rs generalizing e with
+  | nil => intro b' hb' x hx; exact Or.inr ⟨b', hb', hx⟩
+  | cons r rs ih =>
+    intro b' hb' x hx
+    simp only [addRulesets, addDropInRuleset] at hb'
+    cases h : addToFirst T r e.rulesets with
+    | none =>
+      simp only [h, Option.map_none] at hb'
+      exact Or.inr ⟨b', hb', hx⟩
+    | some bs =>
+      simp only [h, Option.map_some] at hb'
+      rcases ih _ b' hb' x hx with ⟨h1, h2⟩ | ⟨b0, hb0, hx0⟩
+      · exact Or.inl ⟨h1, List.mem_cons_of_mem _ h2⟩
+      · rcases addToFirst_mem T r e.rulesets bs h b0 hb0 x hx0 with rfl | h3
+        · exact Or.inl ⟨rfl, List.mem_cons_self⟩
+        · exact Or.inr h3
+
+theorem removeDropInConfig_no_tag (T : Tag) (e : Eng) :
+    ∀ b ∈ (removeDropInConfig T e).rulesets, ∀ x ∈ b.dropins, x.tag ≠ T := by
+  intro b hb x hx
+  simp only [removeDropInConfig, List.mem_map] at hb
+  obtain ⟨b0, _, rfl⟩ := hb
+  rw [removeFromBase_dropins] at hx
+  have := (List.mem_filter.1 hx).2
+  simpa using this
+
+/-- after an accepted `updateDropIn`, every drop-in ruleset carrying the tag is one of the unit's
+rulesets (the object the compiler produced) -/
+theorem updateDropIn_tagged (T : Tag) (u : DUnit) (e : Eng) (hok : (updateDropIn T (some u) e).1 = true) :
+    ∀ b ∈ (updateDropIn T (some u) e).2.rulesets, ∀ x ∈ b.dropins, x.tag = T → x.rs ∈ u.rulesets := by
+  intro b hb x hx ht
+  simp only [updateDropIn, addDropInConfig] at hok hb
+  cases h : (addRulesets T u.rulesets (removeDropInConfig T e)).1
+  · simp [h] at hok
+  · simp only [h, if_true] at hb
+    rcases addRulesets_mem T u.rulesets (removeDropInConfig T e) b hb x hx with ⟨_, h2⟩ | ⟨b0, hb0, hx0⟩
+    · exact h2
+    · exact absurd ht (removeDropInConfig_no_tag T e b0 hb0 x hx0)
+
 end OomdModel.DropIn
